@@ -207,7 +207,7 @@ def schedOf (s : String) : Option (List Ev) :=
 
 open Nsq.Line in
 /-- `lp <rate> <n> <delimhex> <inputhex> <sched> <drain 0|1>` →
-`exit=<code|-> same=<0|1> n=<k> [<records of producer 0>] iters=<loads> ticks=… sleeps=…` -/
+`exit=<code|-> same=<0|1> n=<k> [<records of producer 0>] iters=<loads>` -/
 def driverLine (ws : List String) : String :=
   match ws with
   | [rate, n, d, input, sched, drain] =>
@@ -218,8 +218,7 @@ def driverLine (ws : List String) : String :=
       let code := match st.main with | .exited k => toString k | _ => "-"
       let r0 := acked 0 st.trace
       let same := (List.range n).all fun i => acked i st.trace == r0
-      let stops := st.trace.filter (fun o => match o with | .stop _ => true | _ => false)
-      s!"exit={code} same={if same then 1 else 0} n={r0.length} [{",".intercalate (r0.map hex)}] stops={stops.length} iters={if c.throttle then st.loads else 0} bound={decide (st.loads ≤ 1 + st.ticks + st.sleeps)}"
+      s!"exit={code} same={if same then 1 else 0} n={r0.length} [{",".intercalate (r0.map hex)}] iters={if c.throttle then st.loads else 0}"
     | _, _, _, _, _ => "bad-op"
   | _ => "bad-op"
 
